@@ -58,28 +58,42 @@ Ulo(to)          == Ent("ulo", "", "", <<Ref("g.ulo", to)>>, <<>>)
 UloBA(f, b)      == Ent("ulo", "", "", <<RefX("l.baddr", f, b)>>, <<>>)   \* uselistorder i8* blockaddress(@f, %b), ...
 GlobalAS(n, refs) == Ent("global", n, "as1", refs, <<>>)                 \* a global in address space 1
 UloBB(f, b)      == Ent("ulobb", "", "", <<RefX("l.ulobb", f, b)>>, <<>>)
+FUlo(v)          == Loc("", "ulo", <<Ref("l.fulo", v)>>)                 \* uselistorder i32 %v, { .. } inside a function body
+ModAsm(str)      == Ent("asm", "", str, <<>>, <<>>)                      \* module asm "<str>"
+SrcFile(str)     == Ent("srcfile", "", str, <<>>, <<>>)                  \* source_filename = "<str>"
+Triple(str)      == Ent("triple", "", str, <<>>, <<>>)                   \* target triple = "<str>"
+DataLayout(str)  == Ent("datalayout", "", str, <<>>, <<>>)               \* target datalayout = "<str>"
+GlobalStr(n)     == Ent("global", n, "cstr", <<>>, <<>>)                 \* @n = constant [N x i8] c"<the string ml>"
+MdStr(n)         == Ent("md", n, "mdstr", <<>>, <<>>)                    \* !n = !{!"<the string ml>"}
+StrKinds == {"asm", "srcfile", "triple", "datalayout"}
+TargetKinds == {"srcfile", "triple", "datalayout"}     \* LLVM wants them before every other entity; the last one wins
 
 \* index a reference site is looked up in
 RefClass(rk) ==
-  CASE rk \in {"ty.alias", "ty.field", "ty.global", "ty.sig", "ty.inst", "ty.const"} -> "type"
+  CASE rk \in {"ty.alias", "ty.field", "ty.global", "ty.sig", "ty.inst", "ty.const", "ty.fattr", "ty.pattr"} -> "type"
     [] rk \in {"g.init", "g.aliasee", "g.resolver", "g.operand", "g.callee", "g.personality",
                "g.mdvalue", "g.ulo", "g.cmp"} -> "glob"
     [] rk \in {"c.global", "c.func"} -> "comdat"
     [] rk \in {"a.func", "a.call"} -> "attr"
     [] rk \in {"m.attach", "m.tuple", "m.named", "m.difield"} -> "md"
-    [] rk \in {"l.operand", "l.target", "l.phipred", "l.unwind", "l.within"} -> "local"
+    [] rk \in {"l.operand", "l.target", "l.phipred", "l.unwind", "l.within", "l.fulo", "l.mdlocal", "l.ulolocal"} -> "local"
     [] rk \in {"l.baddr", "l.ulobb"} -> "block"      \* to = function, aux = block
 \* references that are part of the scaffold (resolved when the global entity is created)
-IsSigRef(rk) == rk \in {"ty.global", "ty.sig"}
+IsSigRef(rk) == rk \in {"ty.global", "ty.sig", "ty.pattr"}     \* ty.pattr: the parameter `%T* byval(%T)` carries the type in the signature too
 
 ----------------------------------------------------------------------------
 \* All names used by the patterns, in natural order; bytes given for the cross-check
 \* against NatSort!RefLess (ASSUME NamesSorted in Translate.tla).
 \* "$t", "-t", ".t" sort below every digit; "t$x" extends "t" with the one unquoted character below ')';
 \* "z z" must be written quoted (%"z z", $"z z")
-NameOrder == <<"$t", "-t", ".t", "0", "1", "2", "7", "10", "a", "a2", "a9", "a10", "b", "bb", "c", "entry", "f", "g", "h", "m", "p", "r", "t", "t$x", "x", "y", "z z">>
+NameOrder == <<"$t", "-t", ".t", "0", "1", "2", "7", "10", "a", "a2", "a9", "a10", "a18446744073709551616", "a018446744073709551616", "a18446744073709551617", "b", "bb", "c", "entry", "f", "g", "h", "m", "p", "r", "t", "t$x", "x", "y", "z z">>
+\* digit runs that do not fit 64 bits (2^64, 2^64 with a leading zero, 2^64 + 1): compared by value like any other
+W19 == <<49, 56, 52, 52, 54, 55, 52, 52, 48, 55, 51, 55, 48, 57, 53, 53, 49, 54, 49>>     \* "1844674407370955161"
 NameBytes == [i \in 1..Len(NameOrder) |->
-  CASE NameOrder[i] = "$t" -> <<36, 116>> [] NameOrder[i] = "-t" -> <<45, 116>> [] NameOrder[i] = ".t" -> <<46, 116>>
+  CASE NameOrder[i] = "a18446744073709551616" -> <<97>> \o W19 \o <<54>>
+    [] NameOrder[i] = "a018446744073709551616" -> <<97, 48>> \o W19 \o <<54>>
+    [] NameOrder[i] = "a18446744073709551617" -> <<97>> \o W19 \o <<55>>
+    [] NameOrder[i] = "$t" -> <<36, 116>> [] NameOrder[i] = "-t" -> <<45, 116>> [] NameOrder[i] = ".t" -> <<46, 116>>
     [] NameOrder[i] = "t" -> <<116>> [] NameOrder[i] = "t$x" -> <<116, 36, 120>> [] NameOrder[i] = "z z" -> <<122, 32, 122>>
     [] NameOrder[i] = "0" -> <<48>> [] NameOrder[i] = "1" -> <<49>> [] NameOrder[i] = "2" -> <<50>>
     [] NameOrder[i] = "7" -> <<55>> [] NameOrder[i] = "10" -> <<49, 48>>
@@ -92,8 +106,10 @@ NameBytes == [i \in 1..Len(NameOrder) |->
 Undef == "zz"                                   \* the name faults are redirected to; never defined
 UndefQ == "q0"                                  \* rendered as the QUOTED numeral "0" (%"0", @"0"): a name, never an ID, never defined
 UndefN == "n0"                                  \* rendered as the BARE numeral %0: an ID that no value of an all-named function has
+UndefW == "zw"                                  \* rendered as the ID 99999999999999999999 (!.., #..): it does not fit 64 bits, nothing has it
+UndefE == "qe"                                  \* rendered as the EMPTY quoted name (%"", @""): a name nothing can have, never an ID
 IdNames == <<"@0", "@1", "@2", "@3">>           \* identifiers given to unnamed globals, by textual position
-Names == {NameOrder[i] : i \in 1..Len(NameOrder)} \cup {IdNames[i] : i \in 1..Len(IdNames)} \cup {Undef, UndefQ, UndefN}
+Names == {NameOrder[i] : i \in 1..Len(NameOrder)} \cup {IdNames[i] : i \in 1..Len(IdNames)} \cup {Undef, UndefQ, UndefN, UndefE, UndefW}
 Rank(n) == CHOOSE i \in 1..Len(NameOrder) : NameOrder[i] = n
 
 ----------------------------------------------------------------------------
@@ -221,8 +237,63 @@ Patterns == <<
      Def("h", <<Ref("m.attach", "0")>>, << Loc("entry", "block", <<Ref("l.target", "bb")>>), Loc("bb", "block", <<>>) >>),
      NamedMd("m", <<Ref("m.named", "0"), Ref("m.named", "1")>>) >>,
   \* 18: the type of a global (address space) read through a use in another global's initialiser
-  << GlobalAS("g", <<>>), Global("h", <<Ref("g.cmp", "g")>>), Global("a", <<Ref("g.cmp", "g")>>), Alias("b", <<Ref("g.aliasee", "g")>>) >>
+  << GlobalAS("g", <<>>), Global("h", <<Ref("g.cmp", "g")>>), Global("a", <<Ref("g.cmp", "g")>>), Alias("b", <<Ref("g.aliasee", "g")>>) >>,
+  \* 31: function-level use-list orders in functions that use the same local names (a parameter, an instruction result);
+  \*     a function with none of them and one whose %x is an instruction
+  << Def("f", <<>>, << Loc("x", "param", <<>>), Loc("entry", "block", <<>>), Loc("y", "inst", <<Ref("l.operand", "x")>>),
+        Loc("z", "inst", <<Ref("l.operand", "x"), Ref("l.operand", "y")>>), FUlo("x") >>),
+     Def("g", <<>>, << Loc("x", "param", <<>>), Loc("entry", "block", <<>>), Loc("y", "inst", <<Ref("l.operand", "x")>>),
+        Loc("z", "inst", <<Ref("l.operand", "y"), Ref("l.operand", "y")>>), FUlo("y") >>),
+     Def("h", <<>>, << Loc("entry", "block", <<>>), Loc("x", "inst", <<>>), Loc("z", "inst", <<Ref("l.operand", "x"), Ref("l.operand", "x")>>), FUlo("x") >>),
+     Def("", <<>>, << Loc("entry", "block", <<>>), Loc("a", "inst", <<>>) >>) >>,
+  \* 32: blockaddress constants of equally named blocks of several UNNAMED functions in one initialiser, and of a block
+  \*     only one of them has
+  << Def("", <<>>, << Loc("entry", "block", <<Ref("l.target", "bb")>>), Loc("bb", "block", <<Ref("l.target", "r")>>), Loc("r", "block", <<>>) >>),
+     Def("", <<>>, << Loc("entry", "block", <<Ref("l.target", "bb")>>), Loc("bb", "block", <<>>) >>),
+     Global("g", <<RefX("l.baddr", "@0", "bb"), RefX("l.baddr", "@0", "r"), RefX("l.baddr", "@1", "bb")>>) >>,
+  \* 33-35: names that differ in a digit run wider than 64 bits (and in its leading zeros), in every naturally sorted list
+  << TStruct("a18446744073709551617", <<Ref("ty.field", "a018446744073709551616")>>), TStruct("a18446744073709551616", <<>>),
+     TStruct("a018446744073709551616", <<>>), TStruct("a10", <<>>), Global("g", <<Ref("ty.global", "a18446744073709551617")>>) >>,
+  << Comdat("a18446744073709551617"), Comdat("a018446744073709551616"), Comdat("a18446744073709551616"), Comdat("a9"),
+     Global("g", <<Ref("c.global", "a18446744073709551616")>>), Global("h", <<Ref("c.global", "a18446744073709551617")>>) >>,
+  << NamedMd("a18446744073709551617", <<Ref("m.named", "0")>>), NamedMd("a18446744073709551616", <<>>),
+     NamedMd("a018446744073709551616", <<Ref("m.named", "0")>>), NamedMd("a10", <<>>), Md("0", <<>>) >>,
+  \* 37: named types in type-carrying attributes: a function attribute (declaration and definition), a parameter attribute
+  << TStruct("a", <<>>), Decl("f", <<Ref("ty.fattr", "a")>>), Decl("g", <<Ref("ty.pattr", "b")>>), TStruct("b", <<>>),
+     Def("h", <<Ref("ty.fattr", "b")>>, << Loc("entry", "block", <<>>) >>) >>,
+  \* 36: module-level strings: target definitions first (the last of a kind wins), module asm lines among the other entities
+  \*     (kept in textual order), strings with a raw line break, an escaped quote and a semicolon
+  << SrcFile("s"), Triple("ml"), DataLayout("s"), SrcFile("esc"), ModAsm("s"), Global("g", <<>>), ModAsm("ml"), Decl("f", <<>>), ModAsm("esc"),
+     GlobalStr("h"), MdStr("0"), NamedMd("m", <<Ref("m.named", "0")>>) >>
 >>
+
+\* Abstract strings: "s" one word; "ml" two lines separated by a RAW line break (its bytes are the line ending of the
+\* text); "esc" escapes: \22 (quote), a semicolon, \0D\0A written as escapes.  The value a string has in the module:
+StrIds == {"s", "ml", "esc"}
+StrVal(str, lay) == IF str = "ml" THEN <<"ml", lay.eol>> ELSE <<str, "">>
+
+\* Layouts: eol "lf" | "crlf"; join "line" (one entity per line) | "pair" (two per line) | "same" (the whole module on
+\* one line: LLVM assembly has no line structure outside comments and strings); indent "none" | "dec" (entity e of n is
+\* indented by n - e columns) | "alt" (every other entity by a tab and a space); comments (a comment line before every
+\* line, a comment at the end of every line; only with line structure); final (the text ends with a line ending)
+Lay(id, eol, join, indent, comments, final) == [id |-> id, eol |-> eol, join |-> join, indent |-> indent, comments |-> comments, final |-> final]
+PlainLayout == Lay("plain", "lf", "line", "none", FALSE, TRUE)
+Layouts == << PlainLayout,
+              Lay("crlf", "crlf", "line", "none", FALSE, TRUE),
+              Lay("dec", "lf", "line", "dec", FALSE, TRUE),
+              Lay("same", "lf", "same", "none", FALSE, FALSE),
+              Lay("pair-dec-crlf", "crlf", "pair", "dec", FALSE, TRUE),
+              Lay("alt-comments", "lf", "line", "alt", TRUE, FALSE),
+              Lay("crlf-comments-dec", "crlf", "line", "dec", TRUE, FALSE) >>
+\* position (line, column) of the first byte of entity e of n under a layout; columns on a shared line are abstract
+\* (strictly increasing with e)
+Indent(lay, e, n) == CASE lay.indent = "none" -> 0 [] lay.indent = "dec" -> n - e [] lay.indent = "alt" -> IF e % 2 = 0 THEN 2 ELSE 0
+Pos(lay, e, n) ==
+  LET per == IF lay.comments THEN 2 ELSE 1 IN
+  CASE lay.join = "line" -> <<per * e, 1 + Indent(lay, e, n)>>
+    [] lay.join = "pair" -> <<per * ((e + 1) \div 2), IF e % 2 = 1 THEN 1 + Indent(lay, e, n) ELSE 1000 + Indent(lay, e, n)>>
+    [] lay.join = "same" -> <<1, 1000 * e>>
+PosLess(p, q) == p[1] < q[1] \/ (p[1] = q[1] /\ p[2] < q[2])
 
 \* Patterns outside LLVM's own grammar that the parser accepts (type aliases); kept apart because
 \* LLVM cannot arbitrate them
